@@ -1,6 +1,7 @@
 import LicenseExpr.Lemmas.BSound
 import LicenseExpr.Lemmas.BReject
 import LicenseExpr.Lemmas.WithReject
+import LicenseExpr.Lemmas.Spell
 import LicenseExpr.Model.Api
 /-!
 # C03 — malformed input is rejected with an ExpressionError that locates the fault
@@ -102,6 +103,47 @@ theorem C03_unbalanced_rejected {α : Type} (ts : List (BP.Tok α)) (e : Expr α
   rcases hbad with ⟨pre, post, hts, hlt⟩ | hne
   · have := wf.2.2.2.1 pre post hts; omega
   · exact hne wf.2.2.2.2
+
+/-- **C03 (position)**: when `Licensing.parse` — either tokenizer, any flags — raises a parse error that
+    carries a token string, the words of that string are the texts of consecutive words of the input
+    (`g`, a run of the non-blank pieces of the text), verbatim and in order, and the reported position
+    is exactly where the first of them starts. `ClsOK`: what the model assumes of letter classes
+    (U+0020 is a blank, a parenthesis is not, …). -/
+theorem C03_position (c : Cls) (hc : ClsOK c) (T : Table) (simple strict validate : Bool) (text : Str)
+    (code : Nat) (s : Str) (pos : Int) (h : parseFull c T simple strict validate text = .parseErr code s pos) (hs : s ≠ []) :
+    ∃ pre g post, wordPieces c text = pre ++ g ++ post ∧ g ≠ [] ∧ pos = groupStart g ∧
+      unfoldedWords c s = g.map (·.text) := by
+  unfold parseFull parseFullW at h
+  split at h
+  · simp at h
+  · cases hl : ltokW c T (buildTrie c T) simple strict text with
+    | error er =>
+      simp only [hl] at h
+      cases er with
+      | expr => simp [ofLErr] at h
+      | parse c' s' p' =>
+        simp only [ofLErr, Outcome.parseErr.injEq] at h
+        obtain ⟨rfl, rfl, rfl⟩ := h
+        exact ltok_error_position c hc T _ simple strict text _ _ _ hl hs
+    | ok toks =>
+      simp only [hl] at h
+      cases hp : BP.parseAt (toks.map (·.t)) with
+      | error x =>
+        obtain ⟨pe, idx⟩ := x
+        simp only [hp] at h
+        cases idx with
+        | none =>
+          exfalso
+          cases pe <;> simp [ofPErr] at h <;> exact hs h.2.1
+        | some i =>
+          obtain ⟨t, ht, rfl, rfl⟩ := C03_error_token toks pe i code s pos h hs
+          obtain ⟨pre, g, post, h1, h2, h3, h4⟩ := ltok_ok_position c hc T _ simple strict text toks hl i t ht
+          exact ⟨pre, g, post, h1, h2, by rw [h3], h4⟩
+      | ok e =>
+        simp only [hp] at h
+        split at h
+        · split at h <;> simp at h
+        · simp at h
 
 /-- the hypotheses are satisfiable and the conclusion is not trivial: an accepted list is well formed,
     and the listed malformed shapes are refused -/
